@@ -31,7 +31,7 @@ def pred(fid):
 def match(prop, rec):
     """returns the id of the open finding explaining this rejected record, or None"""
     for fid, f in FINDINGS.items():
-        if f["property"] != prop:
+        if prop not in f.get("properties", [f.get("property")]):
             continue
         fn = PRED.get(fid)
         if fn is None:
@@ -78,3 +78,14 @@ def _c17_shared(rec):
     u = rec["obs"]["unify"]
     return (rec.get("shared") is True and u["class"] == "panic" and u["msg"] == "not support recursive type"
             and (_shared_composite_twice(rec["x"]) or _shared_composite_twice(rec["y"])))
+
+
+# ----------------------------------------------------------------------------
+# evaluation family
+@pred("VMCT-exec-limit-1024")
+def _vmct_limit(rec):
+    runs = rec["obs"]["runs"]
+    if runs["vmct"].get("kind") != "exec-limit":
+        return False
+    # nothing but the call-threaded loop's outcome (and the resulting disagreement) was rejected
+    return all(w.endswith("_vmct") or w == "agree" for w in rec["_why"])
